@@ -86,6 +86,7 @@ func callback.MarkUnsubscribed#sequential
 -- one critical section of the value mutex: read, transform, store, next id, snapshot
 func variable.updateValue
   opt twophase
+  ghost before call List.Values: assert held(v.readableVariable.valueMutex)       -- the callback list is copied in the same critical section
   requires v != nil && v.readableVariable != nil && unlocked(v.readableVariable.valueMutex) && v.transformationFunc != nil && newValueGenerator != nil && v.readableVariable.registeredCallbacks != nil
   callback newValueGenerator(cur) (r)
   modifies monitor(v.readableVariable)
@@ -198,6 +199,12 @@ func readableVariable.OnUpdate$1
 func set.apply
   instantiate ElementType: int
   opt twophase
+  -- the contents change, the update id is drawn and the callback list is copied in ONE critical section of the value mutex
+  -- (a subscriber that registers in between would otherwise be told neither the write - it is not in the copy - nor see it
+  -- in its initial state)
+  ghost before call Set.Apply: assert held(s.readableSet.mutex)
+  ghost before call uniqueID.Next: assert held(s.readableSet.mutex)
+  ghost before call List.Values: assert held(s.readableSet.mutex)
   requires s != nil && s.readableSet != nil && unlocked(s.readableSet.mutex) && s.readableSet.value != nil && s.readableSet.updateCallbacks != nil && mutations != nil
   modifies monitor(s.readableSet), ghost(ds.smem), ghost(ds.salive), ghost(ds.madd), ghost(ds.mdel)
   ensures unlocked(s.readableSet.mutex) && r0 != nil
@@ -221,6 +228,12 @@ func set.apply#sequential
 func set.replace
   instantiate ElementType: int
   opt twophase
+  -- the contents change, the update id is drawn and the callback list is copied in ONE critical section of the value mutex
+  -- (a subscriber that registers in between would otherwise be told neither the write - it is not in the copy - nor see it
+  -- in its initial state)
+  ghost before call Set.Replace: assert held(s.readableSet.mutex)
+  ghost before call uniqueID.Next: assert held(s.readableSet.mutex)
+  ghost before call List.Values: assert held(s.readableSet.mutex)
   requires s != nil && s.readableSet != nil && unlocked(s.readableSet.mutex) && s.readableSet.value != nil && s.readableSet.updateCallbacks != nil && elements != nil
   modifies monitor(s.readableSet), ghost(ds.smem), ghost(ds.salive), ghost(ds.madd), ghost(ds.mdel)
   ensures unlocked(s.readableSet.mutex) && r0 != nil
